@@ -129,6 +129,9 @@ Proof. intros. unfold u32. apply N.mod_small. assumption. Qed.
 Lemma u32_lt : forall x, u32 x < W32.
 Proof. intros. unfold u32. apply N.mod_lt. discriminate. Qed.
 
+Lemma u16_lt : forall x, u16 x < 65536.
+Proof. intros. unfold u16. apply N.mod_lt. discriminate. Qed.
+
 (** *** symbolic execution of monadic host functions
     [mstep] unfolds the monad combinators, splits every guard and every checked primitive, and
     records what each outcome of a primitive implies as hypotheses usable by [lia]. *)
@@ -199,4 +202,12 @@ Lemma setnthN_Forall : forall A (P : A -> Prop) l i x, Forall P l -> P x -> Fora
 Proof.
   intros A P l. induction l as [|y t IH]; intros i x HF Hx; cbn [setnthN]; [constructor|].
   inversion HF; subst. destruct (i =? 0); constructor; auto.
+Qed.
+
+(** usize additions of two u32 values (what the Rust comments call "cannot overflow on 64-bit
+    machines") never overflow: the checked operator returns the exact sum *)
+Lemma uadd_u32 : forall X a b (s : st X), a < W32 -> b < W32 -> uadd a b s = (s, Ok (a + b)).
+Proof.
+  intros X a b s Ha Hb. unfold uadd. destruct (N.ltb_spec (a + b) W64); [reflexivity|].
+  unfold W32, W64 in *. lia.
 Qed.
